@@ -196,18 +196,20 @@ Section Lines.
     forallb field_ok (value_or_caret (an_value n)) = true.
   Proof. unfold value_or_caret. destruct (an_value n) as [[|t v]|]; intros H; try reflexivity. exact H. Qed.
 
-  Lemma inline_value_nonl n : value_wf (value_or_caret (an_value n)) = true ->
+  Lemma inline_value_nonl n :
     forallb field_ok (match an_value n with Some x => x | None => [] end) = true ->
     nonl (inline_value o n) = true.
   Proof.
-    intros Hw Hf. destruct (Ho_parts o Ho) as [_ [_ [_ [_ [_ [_ Hsc]]]]]].
+    intros Hf. destruct (Ho_parts o Ho) as [_ [_ [_ [_ [_ [_ Hsc]]]]]].
     unfold inline_value. destruct (is_self_closed n); [apply nolb_nonl, Hsc|].
     destruct (no_value_part n); [reflexivity|].
-    unfold value_wf in Hw. destruct (split_by_lines (value_or_caret (an_value n))) as [|l1 [|l2 ls]]; try reflexivity.
-    cbn [length Nat.eqb negb] in Hw. rewrite orb_false_r in Hw.
+    pose proof (split_by_lines_pieces (value_or_caret (an_value n))) as Hp.
+    pose proof (split_by_lines_fields _ (value_fields_ok n Hf)) as Hq.
+    destruct (split_by_lines (value_or_caret (an_value n))) as [|l1 [|l2 ls]]; try reflexivity.
+    inversion Hp; subst. inversion Hq; subst.
     rewrite nonl_app. apply andb_true_iff. split.
     - destruct (truthy_s (an_name n) || truthy_l (an_attrs n)); reflexivity.
-    - apply val_text_nonl; [exact Hw|apply value_fields_ok, Hf].
+    - apply val_text_nonl; assumption.
   Qed.
 
   Lemma text_lines_nonl d n :
@@ -234,14 +236,13 @@ Section Lines.
     set (n := ANode nm v rp at_ ch sc) in *.
     rewrite node_wf_eq in Hwf.
     apply andb_true_iff in Hwf. destruct Hwf as [Hwf Hkids].
-    apply andb_true_iff in Hwf. destruct Hwf as [Hwf Hval].
     apply andb_true_iff in Hwf. destruct Hwf as [Hwf Hattrs].
     apply andb_true_iff in Hwf. destruct Hwf as [_ Hname].
     rewrite fields_nonl_eq in Hfl.
     apply andb_true_iff in Hfl. destruct Hfl as [Hfl Hfk].
     apply andb_true_iff in Hfl. destruct Hfl as [Hfv Hfa].
     rewrite node_lines_eq. constructor.
-    - rewrite !nonl_app, ind_nonl, (head_nonl n Hname Hattrs Hfa), (inline_value_nonl n Hval Hfv). reflexivity.
+    - rewrite !nonl_app, ind_nonl, (head_nonl n Hname Hattrs Hfa), (inline_value_nonl n Hfv). reflexivity.
     - apply Forall_app. split; [apply text_lines_nonl, Hfv|].
       change (an_children n) with ch in *. clear - IHch Hkids Hfk.
       induction ch as [|x l IHl]; [constructor|]. inversion IHch; subst.
